@@ -70,6 +70,26 @@ def do_case(ctx, inp):
     if [list(map(int, w)) for w in rec_l.calls[0][1]] != [list(map(int, w)) for w in objs]:
         ctx.fail("objective-depends-on-only_leafs", {"priorities": prios, "objectives": [list(map(int, w)) for w in objs],
                                                      "with_only_leafs": [list(map(int, w)) for w in rec_l.calls[0][1]]}); return
+    if ctx.rng.random() < 0.3:
+        # a numpy COPY of the configurator's polyhedron (deepcopy, .copy(), a view, astype, a slice of everything): if it
+        # answers select() at all — it may refuse, lacking the default priorities — it hands the solver the objective the
+        # configurator itself hands over
+        import copy as _copy2
+        how = ctx.rng.choice(["deepcopy", "copy", "view", "slice", "astype"])
+        ph = o.ge_polyhedron
+        ph2 = {"deepcopy": lambda: _copy2.deepcopy(ph), "copy": lambda: ph.copy(), "view": lambda: ph.view(), "slice": lambda: ph[:],
+               "astype": lambda: ph.astype(np.int64)}[how]()
+        rec_c = Recorder()
+        try:
+            list(ph2.select(*prios, solver=rec_c))
+            answered = bool(rec_c.calls)
+        except Exception:
+            answered = False
+        ctx.tags["copy-of-the-configurator-polyhedron-" + ("answers" if answered else "refuses") + "-select"] += 1
+        if answered and [list(map(int, w)) for w in rec_c.calls[0][1]] != [list(map(int, w)) for w in objs]:
+            ctx.fail("a-copy-of-the-configurator-polyhedron-hands-over-another-objective",
+                     {"copy": how, "priorities": prios, "objectives": [list(map(int, w)) for w in objs],
+                      "from_the_copy": [list(map(int, w)) for w in rec_c.calls[0][1]]}); return
     rows, avars = poly_snap(poly)
     ids = [v[0] for v in avars]
     dpv = [int(v) for v in np.asarray(poly.default_prio_vector).tolist()]
